@@ -2,7 +2,7 @@
    argument passing of apply_gate_clifford for generically controlled gates. *)
 From Coq Require Import ZArith List Bool Arith Lia PrimFloat.
 From QV Require Import Base.Mat Base.Zi C12.ModelFloat C12.ModelTableau C12.ModelExec C12.ModelMeasure
-  C12.Pauli C12.ProofsRules C12.ProofsCircuit.
+  C12.Pauli C12.ProofsRules C12.ProofsCircuit C12.ProofsFloat.
 Import ListNotations.
 
 (* ---------------------------------------------------------------- the library: rule = conjugation *)
@@ -104,4 +104,27 @@ Example execute_plain_ok_nonvacuous :
 Proof.
   eexists. eexists. split; [vm_compute; reflexivity|]. split; [repeat constructor|].
   split; vm_compute; reflexivity.
+Qed.
+
+(* ---------------------------------------------------------------- what a rotation gate means in execute_plain_ok *)
+(* for theta = fl(k*pi/2) (|k| <= 4096, flagged) the operator paired with the engine's rule by
+   sop_of_gate is the exact rotation at (k mod 4)*pi/2, which equals the rotation at k*pi/2 up to
+   the sign (-1)^(k div 4), a global phase *)
+Local Open Scope Z_scope.
+Theorem rx_gate_meaning_K : forall k q, - 4096 <= k <= 4096 -> flag (ang_a k) = true ->
+  sop_of_gate (mkGate cRX [q] [] [q] (Some (PFloat (ang_a k))) (Some (ang_a k)) false)
+  = Some (S1 (of_mat1 (M_RX (Z.to_nat (k mod 4)))) (m_RX_branch (Z.to_nat (k mod 4))) q).
+Proof.
+  intros k q Hk Hf. unfold sop_of_gate, args_cover_qubits, qubits. cbn [g_ctrl g_targ g_args g_cls g_kw app forallb existsb].
+  rewrite Nat.eqb_refl. cbn [orb andb negb]. unfold m_RX.
+  destruct (dispatch_selects_K k Hk) as [Ha _]. now rewrite (Ha Hf).
+Qed.
+
+Theorem crx_gate_meaning_K : forall k c t, c <> t -> - 4096 <= k <= 4096 -> flag (ang_pi k) = true ->
+  sop_of_gate (mkGate cCRX [c; t] [c] [t] (Some (PFloat (ang_pi k))) (Some (ang_pi k)) false)
+  = Some (S2 (of_mat2 (M_CRX (Z.to_nat (k mod 4)))) (m_CRX_branch (Z.to_nat (k mod 4))) c t).
+Proof.
+  intros k c t Hct Hk Hf. unfold sop_of_gate, args_cover_qubits, qubits. cbn [g_ctrl g_targ g_args g_cls g_kw app forallb existsb].
+  rewrite !Nat.eqb_refl. cbn [orb andb negb]. rewrite orb_true_r. cbn [negb].
+  now rewrite (cdispatch_selects_K k Hk Hf).
 Qed.
